@@ -141,14 +141,14 @@ def derivative_search(ctx, budget, honesty):
     rng = ctx.rng
     worst = {}
     skipped_nonfinite = [0]
-    # deterministic probe of the recorded finding (multicomplex second derivative through Bicomplex.arctan/arcsin/arccos)
+    # deterministic probe of a repaired defect (9b2f666, 14bf9fb: multicomplex second derivative through Bicomplex.arctan / arcsin / arccos)
     with warnings.catch_warnings():
         warnings.simplefilter('ignore')
         pv, pinfo = nd.Derivative(np.arctan, n=2, method='multicomplex', full_output=True)(1.0454421587490552)
     pexact = -2 * 1.0454421587490552 / (1 + 1.0454421587490552 ** 2) ** 2
     if abs(float(pv) - pexact) > 1e-6 * abs(pexact) and float(pinfo.error_estimate) < 1e-9:
         ctx.violation('multicomplex second derivative of arctan is wrong with a tiny error estimate', got=float(pv), exact=pexact,
-                      error_estimate=float(pinfo.error_estimate), x=1.0454421587490552, signature='C01-multicomplex2-inverse-trig')
+                      error_estimate=float(pinfo.error_estimate), x=1.0454421587490552)
     if not honesty:
         # deterministic probe of the recorded finding C01-under-resolved-at-final-step
         with warnings.catch_warnings():
@@ -166,9 +166,6 @@ def derivative_search(ctx, budget, honesty):
             continue
         if m == 'complex' and tiny_log1p_argument(tree, x):
             continue
-        inv_trig = m == 'multicomplex' and n == 2 and uses(tree, ('arcsin', 'arccos', 'arctan'))
-        if inv_trig and rng.random() < 0.8:
-            continue        # a few are kept so that the known finding is re-confirmed, the rest would only repeat it
         kw = dict(n=n, method=m, order=order, full_output=True)
         if rng.random() < 0.15 and n >= 1:
             if m in ('complex', 'multicomplex'):
@@ -221,7 +218,7 @@ def derivative_search(ctx, budget, honesty):
             if not v == direct:
                 ctx.violation('n = 0 does not return f(x)', got=v, fx=direct, **rep)
             continue
-        sig = 'C01-multicomplex2-inverse-trig' if inv_trig else None
+        sig = None
         err = abs(v - d[n]) if math.isfinite(v) else float('inf')
         ratio = err / S
         worst[(m, n)] = max(worst.get((m, n), 0.0), ratio / ENV[(m, n)])
@@ -348,8 +345,6 @@ def multistep_complex_family(ctx, budget):
         tree, x, d = gen_program(rng, 10, depth=rng.randint(1, 3), xs=lambda r: r.choice([1, -1]) * 10.0 ** r.uniform(-1, 1))
         if (m == 'multicomplex' and big_hyperbolic_argument(tree, x)) or tiny_log1p_argument(tree, x):
             continue
-        if m == 'multicomplex' and n == 2 and uses(tree, ('arcsin', 'arccos', 'arctan')):
-            continue          # the recorded finding C01-multicomplex2-inverse-trig
         gk = rng.choice(['max', 'min'])
         g = MaxStepGenerator(base_step=0.1, step_ratio=2.0, num_steps=5, step_nom=1.0) if gk == 'max' else \
             MinStepGenerator(base_step=1e-3, step_ratio=2.0, num_steps=8, step_nom=1.0)
